@@ -112,5 +112,16 @@ extern "C" void harness_dmv()
     bool r3 = mv->checkMotion(&s1, &s2, last0);
     VT_CHECK(r3 == expect, "lastValid form with null state: same verdict");
     if (!r3) VT_CHECK(last0.second == (double)(firstBad - 1) / (double)MAXND, "lastValid fraction with null state");
+    // the callers in the library pass the end state itself as last-valid storage (aliasing)
+    TState s2b;
+    s2b.t = 1; s2b.tag = MAXND;
+    std::pair<ob::State *, double> lastA(&s2b, -3.0);
+    bool r4 = mv->checkMotion(&s1, &s2b, lastA);
+    VT_CHECK(r4 == expect, "lastValid form with aliased storage: same verdict");
+    if (!r4)
+    {
+        VT_CHECK(s2b.tag == firstBad - 1, "with the end state as last-valid storage it is overwritten by the last valid state");
+        VT_CHECK(lastA.second == (double)(firstBad - 1) / (double)MAXND, "lastValid fraction with aliased storage");
+    }
     vt_cover("end");
 }
